@@ -46,7 +46,7 @@ def run_property(prop, tier, seed):
             with cf.ThreadPoolExecutor(max_workers=npar) as ex2:
                 futs = {ex2.submit(M.explore, scratch, mirpath, j["harness"], procs,
                                    (j.get("timeout_thorough", 3 * j.get("timeout", 240)) if tier == "thorough" else j.get("timeout", 240)), known_ids,
-                                   j.get("max_steps", 2_000_000)): j for j in e2}
+                                   j.get("max_steps", 2_000_000), None, j.get("msg_prefix")): j for j in e2}
                 for f in cf.as_completed(futs):
                     summaries[futs[f]["harness"]] = f.result()
             try:
@@ -79,7 +79,7 @@ def run_property(prop, tier, seed):
                 samples = samples[: j.get("validate", 60 if tier == "quick" else 300)]
                 cases = [(h, x["inputs"]) for x in samples]
                 vcases = [(h, v["inputs"]) for v in s["violations"] if "inputs" in v]
-                nat, raw = M.run_native_batch(exe, scratch, cases + [c for c, v in zip(vcases, [v for v in s["violations"] if "inputs" in v]) if v["kind"] != "steplimit"], timeout=180)
+                nat, raw = M.run_native_batch(exe, scratch, cases + [c for c, v in zip(vcases, [v for v in s["violations"] if "inputs" in v]) if v["kind"] != "steplimit"], timeout=180, msg_prefix=j.get("msg_prefix"))
                 # suspected non-termination: replay one by one under a watchdog
                 hang_nat = {}
                 for idx, v in enumerate([v for v in s["violations"] if "inputs" in v]):
@@ -106,10 +106,13 @@ def run_property(prop, tier, seed):
                     if j.get("msg_prefix") and v["kind"] == "check" and not v["msg"].startswith(j["msg_prefix"]):
                         continue   # assertion belongs to the sibling property that shares this harness
                     reproduced = n is not None and n["outcome"] in ("panic", "hang", "crash")
+                    if reproduced and j.get("msg_prefix") and v["kind"] == "check" and n["outcome"] == "panic":
+                        # shared harness: the native run must trip over an assertion of this property, not of a sibling
+                        reproduced = any(c.startswith(j["msg_prefix"]) for c in (n.get("checks") or [])) or not (n.get("checks") or [])
                     if not reproduced and v.get("alt_inputs") and v["kind"] != "steplimit":
                         # the same assertion failed on other paths as well: a demonic model (e.g. unstable sort) may
                         # predict a failure that this std version only shows for some of the inputs
-                        alt, _ = M.run_native_batch(exe, scratch, [(h, a) for a in v["alt_inputs"]], timeout=180)
+                        alt, _ = M.run_native_batch(exe, scratch, [(h, a) for a in v["alt_inputs"]], timeout=180, msg_prefix=j.get("msg_prefix"))
                         for a, na in zip(v["alt_inputs"], alt):
                             same_prop = [c for c in (na.get("checks") or []) if c.split(" ")[0] == v["msg"].split(" ")[0]] if na else []
                             if na is not None and na["outcome"] in ("panic", "hang", "crash") and (v["kind"] != "check" or same_prop):
